@@ -92,6 +92,8 @@ func vfWrapSetup(maxLen int, alphabet int, vertical bool) *vfWrapCase {
 
 var vfWrapTruncOpposite bool // whether the truncator may run against the paragraph (set by the harness entry)
 
+var vfWrapSimpleKinds []int // cluster shapes of the single run of the "simple" layouts (nil: one glyph per rune)
+
 // simple: a single 1:1 run in paragraph direction (used to reach longer texts cheaply)
 func vfWrapSetupX(minLen, maxLen int, alphabet int, vertical, simple bool) *vfWrapCase {
 	c := &vfWrapCase{}
@@ -116,7 +118,11 @@ func vfWrapSetupX(minLen, maxLen int, alphabet int, vertical, simple bool) *vfWr
 	mk := func(start, end int) Output {
 		d := c.paraDir
 		if simple {
-			return vfShapedRun(start, end, d, 0, &tag)
+			kind := 0
+			if len(vfWrapSimpleKinds) > 0 {
+				kind = vfWrapSimpleKinds[vfChoice("clusterKind", len(vfWrapSimpleKinds))]
+			}
+			return vfShapedRun(start, end, d, kind, &tag)
 		}
 		if vfChoice("runOpposite", 2) == 1 {
 			if d.Progression() == di.FromTopLeft {
@@ -482,6 +488,20 @@ func VfH_wrap_long() {
 		alpha = 3
 	}
 	c := vfWrapSetupX(3, maxLen, alpha, false, true)
+	var lw LineWrapper
+	lines, truncated := lw.WrapParagraph(c.config, c.maxWidth, c.text, NewSliceIterator(c.runs))
+	c.vfCheckLines(lines, truncated)
+	vfReach("end")
+}
+
+// H-wrap-mixed: three runes without line break opportunity in one run whose clusters mix a ligature and a
+// multi-glyph cluster (equal rune and glyph counts, but no 1:1 mapping), or end with a ligature: the line has to
+// be broken inside the run.
+func VfH_wrap_mixed() {
+	vfWrapTruncOpposite = false
+	vfWrapSimpleKinds = []int{3, 4, 5, 1}
+	c := vfWrapSetupX(3, 3, 1, false, true)
+	vfWrapSimpleKinds = nil
 	var lw LineWrapper
 	lines, truncated := lw.WrapParagraph(c.config, c.maxWidth, c.text, NewSliceIterator(c.runs))
 	c.vfCheckLines(lines, truncated)
